@@ -15,7 +15,7 @@ EXPLANATION = (
     "not decided.")
 # every anchor of these rules lives in the h3 crate: thorough tier repeats them on the feature-less build
 EXTRA_CONFIGS = ["h3-plain"]
-RULES = "C08-a monotone send (A2/A5/A4); C08-b accept/reject line (A5/A3), accept() ends only after an unconditional final shutdown(0) (A2); C08-c announced id is a successor (A4); C08-d client side (A2/A3/A5); shared through a proxy: C16-a under C08-c, C16-b (is_request truth table) under C08-d"
+RULES = "C08-a monotone send (A2/A5/A4); C08-b accept/reject line (A5/A3), accept() ends only after an unconditional final shutdown(0) (A2); C08-c announced id is a successor (A4); C08-d client side (A2/A3/A5); shared through a proxy: C16-a under C08-c, C16-b (is_request truth table) and the Goaway rows of C04-a under C08-d"
 
 CI = "h3::connection::ConnectionInner::"
 SV = "h3::server::connection::Connection::"
@@ -313,3 +313,7 @@ def run(ctx):
         _c16p.run(_shp.Proxy(ctx, ("C16-a",), "C08-c"))
         # "not a client-initiated bidirectional stream ID": the predicate the client applies to a received identifier (C16-b truth table)
         _c16p.run(_shp.Proxy(ctx, ("C16-b",), "C08-d", only=("StreamId::is_request",)))
+        # every received GOAWAY reaches process_goaway (which is where `larger than an earlier one` is H3_ID_ERROR): the Goaway rows of the
+        # two control-stream dispatch tables (C04-a)
+        from rules import C04 as _c04p
+        _c04p.run(_shp.Proxy(ctx, ("C04-a",), "C08-d", constructs=("Goaway",)))
